@@ -11,7 +11,7 @@ RULE = ("(forest, directory state) pairs: arbitrary subsets of node paths presen
 
 def run(ck, rng):
     exe = build_godriver()
-    cases, meta = [], []
+    cases, mcases, meta = [], [], []
     n = 600 if ck.tier == "quick" else 15000
     for _ in range(n):
         items = gen_fs_forest(rng)
@@ -63,19 +63,35 @@ def run(ck, rng):
                         pre.append((tjoin(target, base + b"/" + nm + b"_d/deeper/f.txt"), "f"))
                 if rng.random() < 0.3:
                     pre.append((tjoin(target, b"unrelated_top"), "d"))
-        if vname.startswith("md"):
-            vop = "%s,%s,%s,%s" % ("v" if vname == "md" else "vd", strict, hx(target), hx(doc))
-            build = []
-        else:
-            build = canonical_build(its)
-            vop = "%s,0,%s,%s" % ("V" if vname == "root" else "Vd", strict, hx(target))
-        if rng.random() < 0.12:
-            vop += "," + rng.choice("jyt")
+        # the target as an ABSOLUTE path, written uncleanly (trailing and doubled slashes, "/."): same verdict, same paths
+        vtarget = target
+        if target in (b"tgt", b"sub/tgt") and rng.random() < 0.2:
+            vtarget = b"@JAIL/" + target.replace(b"/", rng.choice([b"/", b"//"])) + rng.choice([b"", b"/", b"//", b"/.", b"/./"])
+        def mk_vop(tg):
+            if vname.startswith("md"):
+                return "%s,%s,%s,%s" % ("v" if vname == "md" else "vd", strict, hx(tg), hx(doc))
+            return "%s,0,%s,%s" % ("V" if vname == "root" else "Vd", strict, hx(tg))
+        build = [] if vname.startswith("md") else canonical_build(its)
+        encs = ("," + rng.choice("jyt")) if rng.random() < 0.12 else ""
+        vop = mk_vop(vtarget) + encs
         cases.append("hist " + ";".join(["F,%s" % snap_arg(pre)] + ops + build + [vop]))
+        mcases.append("hist " + ";".join(["F,%s" % snap_arg(pre)] + ops + build + [mk_vop(target) + encs]))
         meta.append((vname, its, target, strict == "1", scen, len(ops)))
     impl, _ = run_impl(exe, cases)
-    model = run_model(cases)
+    model = run_model(mcases)
     broken = None
+    # the file-system root as target (the joined paths must be spelled as the directory walk spells them)
+    fixed = [("hist v,0,2f,%s" % hx(b"- dev\n  - null\n"), "ok - -"),
+             ("hist v,0,2f,%s" % hx(b"- dev\n  - null\n  - zz_no_such_entry_verif\n"), "err:verify:/" + hx(b"/dev/zz_no_such_entry_verif") + " - -"),
+             ("hist R,%s;A,0,%s;V,0,0,2f" % (hx(b"dev"), hx(b"null")), "h0|h1|ok - -")]
+    fres, _ = run_impl(exe, [c for c, _ in fixed])
+    for (c, want), got in zip(fixed, fres):
+        ck.case(c, True)
+        ck.count("scenario:root_target")
+        g = "|".join(p if not p.startswith(("ok", "err")) else " ".join(p.split(" ")[:1] + ["-", "-"]) for p in got.split("|"))
+        if g != want:
+            ck.violation({"property": "C08", "kind": "verify_exact", "class": "root_target", "case": c, "got": got[:300],
+                          "why": "verify against the target '/' gives %s, expected %s" % (g[:120], want[:120])})
     for i, (name, its, target, strict, scen, nops) in enumerate(meta):
         parts = impl[i].split("|")
         if parts[0].split(" ")[0] in ("panic", "crash", "timeout"):
